@@ -164,7 +164,11 @@ TREES = [
     [[5, 7]],
     [[2], [6]],        # padded sizes 2 and 8: not squares -> oracle only for the rotated aggregators
     [[1]],
+    [[4], [4]],            # tied: ONE array object at both leaf positions
+    [[16], [3], [16]],     # same object at positions 0 and 2
 ]
+# tree index -> {leaf position: earlier position whose array OBJECT it shares} (tied / shared parameters)
+TIED = {7: {1: 0}, 8: {2: 0}}
 AGGS = ['usq', 'tern', 'rusq', 'drive', 'usq_arith']
 
 
@@ -237,6 +241,12 @@ def generate(tier, rng):
       for nr in (1, 2, 3):
         if not any(c[2] == nr for c in have):
           combos.append((agg, rng.choice([1, 2, 3, 4]), nr))
+  for agg in ('rusq', 'drive', 'usq', 'tern'):
+    for tree, share in ((7, False), (8, False), (3, True), (8, True)) if agg in ('rusq', 'drive') else ((7, True),):
+      nc = 2 if tree != 3 else 3
+      yield {'kind': 'A', 'agg': agg, 'L': rng.choice([2, 3, 5]), 'tree': tree, 'clients': nc, 'rounds': 2,
+             'weights': [1.0, 2.0, 0.5][:nc], 'seed': rng.randrange(1, 2 ** 30), 'key': rng.randrange(2 ** 31),
+             'share_clients': share}
   reps = 1 if tier == 'quick' else 2
   for agg, nc, nr in combos:
     for _ in range(reps):
@@ -326,12 +336,17 @@ def _client_params(case, r, c):
     n = int(np.prod(sh))
     out.append([_nz(v) / 8.0 for v in lcg(n, st)])
     st += 1
+  for j, i in TIED.get(case['tree'], {}).items():
+    out[j] = list(out[i])
   return out
 
 
-def _tree_of(shapes, leaves):
+def _tree_of(shapes, leaves, tied=None):
   import jax.numpy as jnp
-  return {f'l{i}': jnp.asarray(np.array(x, np.float32).reshape(sh)) for i, (sh, x) in enumerate(zip(shapes, leaves))}
+  arrays = [jnp.asarray(np.array(x, np.float32).reshape(sh)) for sh, x in zip(shapes, leaves)]
+  for j, i in (tied or {}).items():
+    arrays[j] = arrays[i]           # the very same array object
+  return {f'l{i}': a for i, a in enumerate(arrays)}
 
 
 _SPLITTERS = {}
@@ -388,7 +403,15 @@ def run_A(case):
   rounds = []
   for r in range(case['rounds']):
     clients = [_client_params(case, r, c) for c in range(case['clients'])]
-    cpw = lambda: [(f'c{c}'.encode(), _tree_of(shapes, clients[c]), case['weights'][c]) for c in range(case['clients'])]
+    tied = TIED.get(case['tree'])
+    if case.get('share_clients'):
+      clients = [clients[0] for _ in clients]     # every client passes the SAME tree object (same arrays)
+
+    def cpw():
+      if case.get('share_clients'):
+        t0 = _tree_of(shapes, clients[0], tied)
+        return [(f'c{c}'.encode(), t0, case['weights'][c]) for c in range(case['clients'])]
+      return [(f'c{c}'.encode(), _tree_of(shapes, clients[c], tied), case['weights'][c]) for c in range(case['clients'])]
     inputs = cpw()
     snap = [[np.array(l) for l in _leaves(p)] for _, p, _ in inputs]
     out_j, state_j = agg.apply(inputs, state_j)          # as shipped (jit)
@@ -642,6 +665,16 @@ def _oracle_A(case, obs):
           refq = (np.sum(x * x) / n1) * np.sign(x) if n1 > 0 else np.zeros_like(x)
           if not np.all(np.isfinite(xout)) or np.max(np.abs(np.array(xout) - refq)) > 1e-5 * (np.max(np.abs(refq)) + 1e-30):
             out.append(('drive.scale', 'DRIVE output is not |x|_2^2/|x|_1 * sign(x) in the rotated space'))
+    if agg in ('rusq', 'drive') and len(rd['quant']) == nc:
+      # the rotation is an isometry and the inverse only crops padding: the per-client error in the original space
+      # cannot exceed the quantisation error made in the rotated space
+      for c in range(nc):
+        e_orig = sum((a - b) ** 2 for fl, xl in zip(finals[c], rd['clients'][c]) for a, b in zip(fl, xl))
+        e_rot = sum((a - b) ** 2 for ql, yl in zip(rd['quant'][c]['out'], rd['quant'][c]['in']) for a, b in zip(ql, yl))
+        n_x = sum(b * b for xl in rd['clients'][c] for b in xl)
+        if not e_orig <= e_rot * (1 + 1e-3) + 1e-6 * (1 + n_x):
+          out.append(('rotated.not-inverse', f'client {c}: error after the inverse rotation {e_orig} exceeds the quantisation '
+                      f'error in the rotated space {e_rot}: the inverse rotation does not undo the rotation'))
     # randomness: every (round, client, leaf) draw uses its own key
     if agg != 'drive':
       if len(rd['uniform_keys']) != nc * nl:
